@@ -191,6 +191,12 @@ func (w *World) verifyFunc(fn *ssa.Function, c *FuncContract) (res *FuncResult) 
 	fr.entry = st.clone()
 	vc.replay = &ReplayInfo{fn: fn, args: args, contract: c, world: w}
 	out, vals := fr.run(st, args)
+	// closures that escaped (handed to a callee the engine did not execute them
+	// through) are verified on their own: arbitrary arguments, arbitrary values
+	// of the captured variables, arbitrary memory
+	if len(c.Sends) > 0 || len(c.Reach) > 0 {
+		w.verifyEscapedClosures(x, fn, c)
+	}
 	for _, rc := range c.Reach {
 		if rc.Clause.Label != "bound" {
 			vc.diag("%s: reach clause: no statement with text %q", name, rc.Stmt)
@@ -228,6 +234,43 @@ func (w *World) verifyFunc(fn *ssa.Function, c *FuncContract) (res *FuncResult) 
 		x.oblige(out, "crash", "at return: "+ci.Text, fn.Pos(), g, ci.Tags, false)
 	}
 	return
+}
+
+func (w *World) verifyEscapedClosures(x *Exec, fn *ssa.Function, c *FuncContract) {
+	var visit func(f *ssa.Function)
+	visit = func(f *ssa.Function) {
+		for _, af := range f.AnonFuncs {
+			if !x.ranFns[af] && af.Blocks != nil {
+				func() {
+					defer func() {
+						if r := recover(); r != nil {
+							x.vc.diag("%s: closure not verified: %v", af.String(), r)
+						}
+					}()
+					saved := x.curFn
+					x.curFn = shortName(af.String())
+					defer func() { x.curFn = saved }()
+					st := &State{pc: "true", cells: map[*Cell]*Val{}, heaps: map[string]string{}}
+					st.epoch = x.newEpoch(&epochInfo{kind: 1, parent: 0, pats: []string{"*"}})
+					st.allocTop = x.vc.fresh("allocTop", sInt)
+					x.vc.assume(tCmp("<=", "0", st.allocTop))
+					st.events = x.vc.fresh("events", sInt)
+					fr := x.newFrame(af, nil)
+					fr.contract = c
+					var args []*Val
+					for _, p := range af.Params {
+						v := x.freshVal(p.Name(), p.Type())
+						x.refFacts(st, v)
+						args = append(args, v)
+					}
+					fr.entry = st.clone()
+					fr.run(st, args)
+				}()
+			}
+			visit(af)
+		}
+	}
+	visit(fn)
 }
 
 // verifyLemma proves a lemma clause (closed formula over spec functions).
